@@ -29,6 +29,7 @@ type Cfg struct {
 	CloseTimeoutMs int64    `json:"close_timeout_ms"`
 	Buf            int      `json:"buf"`
 	FailSaves      []int    `json:"fail_saves,omitempty"`
+	LogonCbNs      int64    `json:"logon_cb_ns,omitempty"` // acceptor (full rig): virtual time the application's logon callback takes
 	User           string   `json:"user,omitempty"`
 	Pass           string   `json:"pass,omitempty"`
 	Sender         string   `json:"sender,omitempty"` // initiator's identifiers
